@@ -199,6 +199,10 @@ enum Op {
     LoseCaches { which: u8, c: u32 },
     /// what a late subscriber of the thread gets as its past: `ContinuityStore::replay_events`
     Replay { c: u32 },
+    /// the authority restarts (a new `EventLog` + `ContinuityStore` over the same data directory).  With
+    /// `failing` the new log's writer sits on a full disk: every log write answers ENOSPC (the writer was
+    /// opened while `events.jsonl` pointed at /dev/full), readers re-open the path and see the real file
+    Restart { failing: bool },
 }
 
 fn op_name(op: &Op) -> &'static str {
@@ -229,6 +233,8 @@ fn op_name(op: &Op) -> &'static str {
         Op::Task { .. } => "task",
         Op::LoseCaches { .. } => "lose_caches",
         Op::Replay { .. } => "replay_events",
+        Op::Restart { failing: false } => "restart_store",
+        Op::Restart { failing: true } => "restart_store_on_full_disk",
     }
 }
 
@@ -268,6 +274,7 @@ fn op_json(op: &Op) -> Value {
             json!({"which": w, "c": c})
         }
         Op::Replay { c } => json!({"c": c}),
+        Op::Restart { failing } => json!({"log_writes_fail": failing}),
     };
     json!({"op": name, "p": body})
 }
@@ -425,10 +432,41 @@ fn builtin_histories() -> Vec<History> {
                 msg(9),
             ],
         ),
+        // the log's writer sits on a full disk (restart with events.jsonl on /dev/full): every write op returns an
+        // error and must leave nothing in the sidecars, in replay_events or on the channel; then the disk has room
+        // again (another restart), before and after further appends
+        (
+            HKind::Cont,
+            vec![
+                Op::EnsureDefault,
+                msg(1),
+                Op::Restart { failing: true },
+                msg(2),
+                Op::Replay { c: 0 },
+                Op::RunSpawned { c: 0, m: 0 },
+                Op::SideEffects { r: 0, paths: 2, ckpt: true, name: t(1, 2) },
+                Op::Branch { c: 0, title: None, from: Cut::Head },
+                Op::CkptCumulative { c: 0, md: Some(t(1, 3)), art: false, to: Cut::Head, stride: None },
+                Op::CursorUpdated { c: 0, cursor: 2, num: None, endpoint: true, model: false, run: false, text: t(1, 4) },
+                Op::Replay { c: 0 },
+                Op::Restart { failing: false },
+                Op::Replay { c: 0 },
+                msg(3),
+                Op::RunSpawned { c: 0, m: 0 },
+                Op::Restart { failing: true },
+                Op::RunEnded { r: 0, reason: t(1, 5) },
+                Op::Message { c: 0, text: t(12, 6) },
+                Op::Replay { c: 0 },
+                Op::Restart { failing: false },
+                msg(4),
+                Op::Replay { c: 0 },
+            ],
+        ),
     ];
     v.drain(..).enumerate().map(|(k, (kind, ops))| History { seed: 0, index: BUILTIN_BASE + k, kind, ops }).collect()
 }
 const BUILTIN_BASE: usize = 1_000_000;
+const REAL_LOG: &str = "events.real.jsonl";
 
 fn gen_history(seed: u64, index: usize) -> History {
     let mut r = Rng::new(seed.wrapping_mul(1_000_003).wrapping_add(index as u64).wrapping_mul(0x2545_F491_4F6C_DD1D));
@@ -443,6 +481,29 @@ fn gen_history(seed: u64, index: usize) -> History {
             }
             while ops.len() < n {
                 ops.push(gen_cont_op(&mut r));
+            }
+            // restarts of the authority, and periods in which the log's writer sits on a full disk (every third
+            // history): the ops inside the window run against a store whose log writes fail
+            if r.chance(1, 3) {
+                let windows = r.range(1, 2);
+                for _ in 0..windows {
+                    let at = r.range(1, ops.len() as u64) as usize;
+                    let len = r.range(1, 6) as usize;
+                    let end = (at + len).min(ops.len());
+                    let c = r.below(3) as u32;
+                    // back to a healthy writer after the window (sometimes the history ends on the full disk)
+                    if !r.chance(1, 6) {
+                        ops.insert(end, Op::Replay { c });
+                        ops.insert(end, Op::Restart { failing: false });
+                    }
+                    // what a late subscriber gets while the disk is full, after at least one refused write
+                    ops.insert(end, Op::Replay { c });
+                    ops.insert(at, Op::Message { c, text: gen_small_txt(&mut r) });
+                    ops.insert(at, Op::Restart { failing: true });
+                }
+            } else if r.chance(1, 4) {
+                let at = r.range(1, ops.len() as u64) as usize;
+                ops.insert(at, Op::Restart { failing: false });
             }
         }
         HKind::Sess => {
@@ -584,16 +645,22 @@ struct DiskView {
     seqs: HashMap<(String, String), Vec<u64>>,
     frames: usize,
     bad_lines: usize,
+    /// when set: the frames read by `refresh` since the caller last took them (`take_fresh`)
+    keep_fresh: bool,
+    fresh: Vec<Event>,
 }
 impl DiskView {
     fn new(path: PathBuf) -> Self {
-        DiskView { path, offset: 0, by_id: HashMap::new(), seqs: HashMap::new(), frames: 0, bad_lines: 0 }
+        DiskView { path, offset: 0, by_id: HashMap::new(), seqs: HashMap::new(), frames: 0, bad_lines: 0, keep_fresh: false, fresh: vec![] }
     }
     fn reset(&mut self) {
         self.offset = 0;
         self.by_id.clear();
         self.seqs.clear();
         self.frames = 0;
+    }
+    fn take_fresh(&mut self) -> Vec<Event> {
+        std::mem::take(&mut self.fresh)
     }
     fn refresh(&mut self) {
         use std::io::{Read, Seek, SeekFrom};
@@ -626,6 +693,9 @@ impl DiskView {
                     self.frames += 1;
                     self.seqs.entry((kind_str(ev.stream_kind()).to_string(), ev.stream_id().to_string())).or_default().push(ev.seq);
                     self.by_id.entry(ev.id.clone()).or_default().push(canon(&ev).to_string());
+                    if self.keep_fresh {
+                        self.fresh.push(ev);
+                    }
                 }
                 Err(_) => self.bad_lines += 1,
             }
@@ -828,6 +898,13 @@ struct Env {
     /// they are not one of C03's views any more
     lost_derived: BTreeSet<String>,
     mid_reported: BTreeSet<&'static str>,
+    /// fresh readers of every file under continuity_streams/ (full, messages+runs, checkpoints): what they hold
+    /// must be in the log after EVERY op, failed ones included
+    incl_views: HashMap<String, DiskView>,
+    mid_incl_checked: u64,
+    /// the store's log writer sits on a full disk (`Op::Restart { failing: true }`)
+    log_failing: bool,
+    ops_while_failing: u64,
 }
 
 fn kind_str(k: StreamKind) -> &'static str {
@@ -921,6 +998,49 @@ impl Env {
             }
         }
         self.cont_checked = self.live.cont.len();
+    }
+    /// "Nothing appears in one of them that is not in the log", after every op (failed ones included): every
+    /// frame a fresh reader finds in a file under continuity_streams/ must be found by a fresh reader of
+    /// events.jsonl.  Sound under every interleaving with runs in flight: each append path writes the log line
+    /// before the sidecar line, and the log is read AFTER the sidecars here.
+    fn check_sidecars_within_log(&mut self, op_index: usize, op: &str) {
+        let dir = self.data_dir.join("continuity_streams");
+        let mut fresh: Vec<(String, Event)> = vec![];
+        for f in list_files(&dir) {
+            if !f.ends_with(".jsonl") {
+                continue;
+            }
+            let view = self.incl_views.entry(f.clone()).or_insert_with(|| {
+                let mut v = DiskView::new(dir.join(&f));
+                v.keep_fresh = true;
+                v
+            });
+            view.refresh();
+            for ev in view.take_fresh() {
+                fresh.push((f.clone(), ev));
+            }
+        }
+        if fresh.is_empty() {
+            return;
+        }
+        self.log_view.refresh();
+        for (f, ev) in fresh {
+            self.mid_incl_checked += 1;
+            if !self.log_view.has(&ev) && self.mid_reported.insert("sidecar_frame_not_in_log") {
+                let c = canon(&ev);
+                let cid = ev.stream_id().to_string();
+                let on_disk = self.log_view.stream_seqs(StreamKind::Continuity, &cid);
+                self.viols.push(Viol {
+                    class: "sidecar_frame_not_in_log",
+                    what: format!(
+                        "stream continuity/{cid}: after op #{op_index} {op}{} a fresh reader of continuity_streams/{f} finds frame type {} seq {} id {}, and a fresh reader of events.jsonl finds seqs {:?} of that stream: the sidecar holds a frame that is not in the log",
+                        if self.log_failing { " (the log's writer sits on a full disk: the op returned an error)" } else { "" },
+                        frame_type(&c), ev.seq, ev.id, on_disk
+                    ),
+                    detail: json!({"stream": format!("continuity/{cid}"), "file": f, "op_index": op_index, "op": op, "log_writes_fail": self.log_failing, "frame": short(&c), "seqs_in_log": on_disk}),
+                });
+            }
+        }
     }
     fn cut(&self, cid: &str, c: &Cut) -> (Option<String>, Option<u64>) {
         match c {
@@ -1464,6 +1584,34 @@ async fn exec_op(env: &mut Env, i: usize, op: &Op) -> Result<(), String> {
             }
             Ok(())
         }
+        Op::Restart { failing } => {
+            if env.engine.is_some() {
+                return Err("the engine owns its log: no restart in this kind of history".to_string());
+            }
+            if *failing && !Path::new("/dev/full").exists() {
+                return Err("no /dev/full on this box".to_string());
+            }
+            env.drain_cont();
+            let link = env.data_dir.join("events.jsonl");
+            let real = env.data_dir.join(REAL_LOG);
+            if *failing {
+                // the writer is opened while the path points at /dev/full and keeps that descriptor
+                std::fs::remove_file(&link).map_err(|e| format!("unlink: {e}"))?;
+                std::os::unix::fs::symlink("/dev/full", &link).map_err(|e| format!("symlink: {e}"))?;
+            }
+            let log = EventLog::new(&link);
+            if *failing {
+                let _ = std::fs::remove_file(&link);
+                std::os::unix::fs::symlink(&real, &link).map_err(|e| format!("symlink back: {e}"))?;
+            }
+            let log = Arc::new(log.map_err(|e| e.to_string())?);
+            let store = Arc::new(ContinuityStore::new(env.data_dir.clone(), env.workspace.clone(), log)?);
+            // the subscriber of the old store has everything it published (drained above); follow the new one
+            env.cont_rx = store.subscribe();
+            env.store = store;
+            env.log_failing = *failing;
+            Ok(())
+        }
         Op::Replay { c } => {
             let cid = env.cont_id(*c);
             let log_path = env.data_dir.join("events.jsonl");
@@ -1532,6 +1680,9 @@ async fn run_ops(kind: HKind, ops: &[Op], scratch: &Path) -> Result<RunReport, S
 
     let (store, engine) = match kind {
         HKind::Cont => {
+            // events.jsonl is a symlink to the real file, so that a restart can open the writer on /dev/full
+            std::fs::create_dir_all(&data_dir).map_err(|e| e.to_string())?;
+            std::os::unix::fs::symlink(data_dir.join(REAL_LOG), data_dir.join("events.jsonl")).map_err(|e| format!("symlink: {e}"))?;
             let log = Arc::new(EventLog::new(data_dir.join("events.jsonl")).map_err(|e| e.to_string())?);
             (Arc::new(ContinuityStore::new(data_dir.clone(), workspace.clone(), log)?), None)
         }
@@ -1565,6 +1716,10 @@ async fn run_ops(kind: HKind, ops: &[Op], scratch: &Path) -> Result<RunReport, S
         lost_full: BTreeSet::new(),
         lost_derived: BTreeSet::new(),
         mid_reported: BTreeSet::new(),
+        incl_views: HashMap::new(),
+        mid_incl_checked: 0,
+        log_failing: false,
+        ops_while_failing: 0,
     };
     let mut stats = Stats::default();
 
@@ -1575,8 +1730,13 @@ async fn run_ops(kind: HKind, ops: &[Op], scratch: &Path) -> Result<RunReport, S
             Ok(()) => stats.bump(&format!("op_ok.{name}")),
             Err(_) => stats.bump(&format!("op_err.{name}")),
         }
+        if env.log_failing && !matches!(op, Op::Restart { .. }) {
+            env.ops_while_failing += 1;
+            stats.bump(&format!("full_disk.{}.{name}", if matches!(op, Op::Replay { .. } | Op::LoseCaches { .. }) { "read_op" } else { "write_op" }));
+        }
         env.drain_cont();
         env.check_cont_on_disk(i, name);
+        env.check_sidecars_within_log(i, name);
     }
     let pend: Vec<Pending> = std::mem::take(&mut env.pending);
     for p in pend {
@@ -1584,9 +1744,11 @@ async fn run_ops(kind: HKind, ops: &[Op], scratch: &Path) -> Result<RunReport, S
     }
     env.drain_cont();
     env.check_cont_on_disk(ops.len(), "end of history");
+    env.check_sidecars_within_log(ops.len(), "end of history");
     stats.bump_by("mid.live_frames_looked_up_in_log", env.mid_checked);
     stats.bump_by("mid.live_frames_looked_up_in_sidecar", env.mid_side_checked);
-    stats.checks += env.mid_checked + env.mid_side_checked;
+    stats.bump_by("mid.sidecar_frames_looked_up_in_log", env.mid_incl_checked);
+    stats.checks += env.mid_checked + env.mid_side_checked + env.mid_incl_checked;
 
     // ---------------- compare the views
     let mut viols = std::mem::take(&mut env.viols);
